@@ -5,6 +5,28 @@ import Stab.Model.Engine
 
 namespace Stab.Engine
 
+/-- the continuation of a completing stage consists of pushes only -/
+theorem mem_splitCont (sc : StageCfg) (down : List Nat) (e : Eff) (h : e ∈ splitCont sc down) : ∃ m, e = .push m := by
+  unfold splitCont at h
+  split at h
+  · simp only [List.mem_singleton] at h; exact ⟨_, h⟩
+  · simp only [List.mem_append, List.mem_map] at h
+    rcases h with ⟨d, _, rfl⟩ | ⟨d, _, rfl⟩ <;> exact ⟨_, rfl⟩
+
+@[simp] theorem setStage_not_mem_splitCont (sc : StageCfg) (down : List Nat) (i : Nat) (new : StageSt) :
+    (Eff.setStage i new ∈ splitCont sc down) = False := by
+  apply eq_false
+  intro h
+  obtain ⟨m, hm⟩ := mem_splitCont sc down _ h
+  cases hm
+
+@[simp] theorem mark_not_mem_splitCont (sc : StageCfg) (down : List Nat) (id : Nat) :
+    (Eff.mark id ∈ splitCont sc down) = False := by
+  apply eq_false
+  intro h
+  obtain ⟨m, hm⟩ := mem_splitCont sc down _ h
+  cases hm
+
 @[simp] theorem applyEff_ledger (s : State) (e : Eff) : (applyEff s e).ledger = s.ledger := by
   cases e <;> simp only [applyEff] <;> (try split) <;> rfl
 
